@@ -373,7 +373,7 @@ let arenax_line () =
 
 let keeps_arena_sync = ["ins"; "rem"; "remk"; "clear"; "remc"; "retain"; "getmut"; "viewmut";
                         "obs"; "q"; "shape"; "arena"; "arenax"; "iters"; "view"; "alg";
-                        "sins"; "srem"; "sremk"; "sremc"; "sclear"; "ssave"; "sretain"; "seq"; "sobs"; "sshape"; "sviewat"; "sq"; "save"; "eq"]
+                        "sins"; "srem"; "sremk"; "sremc"; "sclear"; "ssave"; "sretain"; "seq"; "sobs"; "sshape"; "sviewat"; "sfromlist"; "sq"; "save"; "eq"]
 let exec (toks : string list) =
   (match toks with
    | op :: x :: _ when not (Stdlib.List.mem op keeps_arena_sync) && (x = "A" || (String.length x = 2 && String.contains x 'A')) -> aA := None
@@ -682,6 +682,7 @@ let exec (toks : string list) =
          ^ " cvals=" ^ plist (fun (_, v) -> string_of_int v) cov
          ^ " cf=" ^ pbool cf
          ^ " ch=" ^ plist ppair (drop3 (Inst.t_children !w !fl t q))
+         ^ " ich=" ^ plist ppair (drop3 (Inst.t_into_children !w !fl t q))
          ^ " va=" ^ va)
   | ["iters"; x] ->
     let t = root !(mapref x) in
@@ -727,6 +728,14 @@ let exec (toks : string list) =
     mT := m'; add "ok"
   | ["seq"] ->
     add (pbool (Inst.t_map_eq ueq (root !mT) (root !sT)) ^ " " ^ pbool (Inst.t_map_eq ueq (root !sT) (root !mT)))
+  | ["fromlist"; x; items] ->
+    let l = if items = "-" then [] else
+        Stdlib.List.map (fun it -> match String.split_on_char '=' it with
+            | [p; v] -> (parse_pfx p, int_of_string v) | _ -> failwith "fromlist") (String.split_on_char ',' items) in
+    (mapref x) := Inst.t_from_list !w !fl l; add "ok"
+  | ["sfromlist"; items] ->
+    let l = if items = "-" then [] else Stdlib.List.map (fun p -> (parse_pfx p, ())) (String.split_on_char ',' items) in
+    mT := Inst.t_from_list !w !fl l; add "ok"
   | ["sshape"] ->
     let rec sshape (v : (pfx, unit) Views.view) : string =
       let side = function None -> "." | Some v' -> sshape v' in
